@@ -165,7 +165,8 @@ def run_one(m):
 
 def main():
     args = [a for a in sys.argv[1:] if not a.startswith('--')]
-    ms = [m for m in M if not args or any(a in m[0] for a in args)]
+    props = [a.split('=', 1)[1] for a in sys.argv[1:] if a.startswith('--prop=')]
+    ms = [m for m in M if (not args or any(a in m[0] for a in args)) and (not props or m[1] in props)]
     res = []
     with concurrent.futures.ThreadPoolExecutor(max_workers=6) as ex:
         for r in ex.map(run_one, ms):
